@@ -108,6 +108,13 @@ def make_proxy_plugin(idx: int, table: Dict[str, Any], log: List[Any]) -> type:
             if a == 'modify':
                 request.add_header(b'X-Mark-%d%s' % (idx, suffix), b'1')
                 return request
+            if a == 'replace':
+                # hand on a *new* request object; the one received stays untouched
+                from proxy.http.parser import HttpParser, httpParserTypes
+                new = HttpParser(httpParserTypes.REQUEST_PARSER)
+                new.parse(memoryview(request.build(for_proxy=True)))
+                new.add_header(b'X-Mark-%d%s' % (idx, suffix), b'1')
+                return new
             if a == 'drop':
                 return None
             if a == 'raise':
